@@ -1,4 +1,4 @@
 import GopModel.Driver.Loop
 import GopModel.Driver.Comp
 open GopModel.Driver
-def main : IO Unit := runDriver (dispatchWith [("evalg", handleEvalG), ("skip", handleSkip)])
+def main : IO Unit := runDriver (dispatchWith [("evalg", handleEvalG), ("skip", handleSkip), ("gosrc", handleSkip)])
